@@ -340,7 +340,7 @@ def judge(prop, cases, impl, model_out, res, known, flavour_tag=""):
 
 
 def write_replay(pid, n, payload):
-    d = os.path.join(BUILD, "replay"); os.makedirs(d, exist_ok=True)
+    d = os.path.join(BUILD, "replay" if os.path.realpath(REPO) == "/repo" else "replay-scratch"); os.makedirs(d, exist_ok=True)
     p = os.path.join(d, "%s-%d.json" % (pid, n))
     json.dump(payload, open(p, "w"), indent=1)
     return p
@@ -471,8 +471,10 @@ def run_check(prop, tier, seed):
         "assumptions": ["Impl ~ Model is established only on the explored cases (differential testing)",
                         "Model |= Spec is kernel-checked for all inputs of the stated domain"] + getattr(prop, "ASSUMPTIONS", []),
     }
-    os.makedirs(os.path.join(VERIF, "evidence"), exist_ok=True)
-    json.dump(ev, open(os.path.join(VERIF, "evidence", "%s.json" % pid), "w"), indent=1)
+    # evidence/ only ever describes runs against /repo itself; runs against a scratch tree (VERIF_REPO) go elsewhere
+    evdir = os.path.join(VERIF, "evidence") if os.path.realpath(REPO) == "/repo" else os.path.join(BUILD, "evidence-scratch")
+    os.makedirs(evdir, exist_ok=True)
+    json.dump(ev, open(os.path.join(evdir, "%s.json" % pid), "w"), indent=1)
     log("[%s] %d cases, %d in domain, %d spec failures (%d known classes), obligations %d/%d, %.1fs" %
         (pid, res.evaluations, res.in_domain, len(res.failures), len(res.known_hits), discharged, obligations, time.time() - t0))
     return 1 if violations else 0
